@@ -414,7 +414,8 @@ def h_callback(ctx, d, n, I):
     ctx.claim('default_info_carries_nothing_over', all(bool(ctx.all_eq(a, b)) for a, b in zip(Ya, Yb)))
 
 
-def h_func(ctx, m, n, sym_points=False, fixed_cores=False, y_last=None, n_max=None, thr_pow=None, outside=False):
+def h_func(ctx, m, n, sym_points=False, fixed_cores=False, y_last=None, n_max=None, thr_pow=None, outside=False,
+           custom_fh=False):
     """Functional version (als_func), d = 2, rank 1, Chebyshev basis of size n:
     every core update is the exact minimiser of the regularised objective over
     the retained degrees (spy on als_func._optimize_core), shape and ranks are
@@ -475,8 +476,13 @@ def h_func(ctx, m, n, sym_points=False, fixed_cores=False, y_last=None, n_max=No
         return nk
     fmod._optimize_core = spy
     info = {}
+    fkw = {}
+    if custom_fh:
+        # a different basis per mode, given as a list of callables: mode 0 uses (1, x), mode 1 uses (x, 1 + x^2)
+        one = lambda x: x * 0 + 1
+        fkw = {'fh': [lambda x: np.array([one(x), x]), lambda x: np.array([x, one(x) + x * x])]}
     try:
-        Y = _with_stubs(ctx, lambda: teneva.als_func(X, y, A0, nswp=1, e=None, info=info, lamb=lamb, n_max=n_max, thr_pow=thr))
+        Y = _with_stubs(ctx, lambda: teneva.als_func(X, y, A0, nswp=1, e=None, info=info, lamb=lamb, n_max=n_max, thr_pow=thr, **fkw))
     finally:
         fmod._optimize_core = real
     ctx.claim('well_formed', well_formed(Y, [G.shape[1] for G in Y]))
@@ -522,11 +528,40 @@ def h_func(ctx, m, n, sym_points=False, fixed_cores=False, y_last=None, n_max=No
         for j in range(m):
             clip = (lambda v: v) if sym_points else (lambda v: ctx.const(max(-1., min(1., float(pts[j][v])))))
             T0, T1 = (cheb(X[j, 0], n0), cheb(X[j, 1], n1)) if sym_points else (cheb(clip(0), n0), cheb(clip(1), n1))
+            if custom_fh:
+                T0, T1 = [1, X[j, 0]][:n0], [X[j, 1], 1 + X[j, 1] * X[j, 1]][:n1]
             L = sum((Y[0][0, t, 0] * T0[t] for t in range(n0)), 0)
             pred = L * sum((Y[1][0, t, 0] * T1[t] for t in range(n1)), 0)
             g = g + (pred - y[j]) * L * T1[s_]
         ok.append(ctx.eq(g, 0))
     ctx.claim('last_core_optimal_given_returned_cores', ctx.all_(ok))
+
+
+def h_concrete_custom_basis(ctx):
+    """als_func with a list / tuple of different basis callables, one per mode
+    (real code): with f_k = Chebyshev basis o g_k the fit must coincide with the
+    default-basis fit on the transformed points (g_0(x_0), ..., g_{d-1}(x_{d-1})),
+    sweep by sweep; a single callable and the same callable for every mode as well."""
+    rng = np.random.default_rng(11)
+    d, n, m = 3, 3, 40
+    X = rng.uniform(-0.9, 0.9, size=(m, d))
+    y = np.sin(X[:, 0]) + X[:, 1] * X[:, 2]
+    A0 = teneva.rand([n] * d, 2, seed=5)
+    g = [lambda x: x, lambda x: x * x, lambda x: -x]
+    Xg = np.stack([g[k](X[:, k]) for k in range(d)], axis=1)
+    ok = True
+    for nswp in (1, 2):
+        ref = teneva.als_func(Xg, y, A0, nswp=nswp, e=None, lamb=0.3, info={})
+        for fh in ([(lambda x, k=k: teneva.func_basis(g[k](x), n)) for k in range(d)],
+                   tuple((lambda x, k=k: teneva.func_basis(g[k](x), n)) for k in range(d))):
+            got = teneva.als_func(X, y, A0, nswp=nswp, e=None, lamb=0.3, fh=fh, info={})
+            ok = ok and all(a.shape == b.shape and np.allclose(a, b, rtol=1e-8, atol=1e-10) for a, b in zip(got, ref))
+        ref1 = teneva.als_func(X, y, A0, nswp=nswp, e=None, lamb=0.3, info={})
+        one = lambda x: teneva.func_basis(x, n)
+        for fh in (one, [one] * d):
+            got = teneva.als_func(X, y, A0, nswp=nswp, e=None, lamb=0.3, fh=fh, info={})
+            ok = ok and all(np.allclose(a, b, rtol=1e-8, atol=1e-10) for a, b in zip(got, ref1))
+    ctx.claim('per_mode_basis_callables_used_for_their_own_mode', bool(ok))
 
 
 def _layouts(d, n, m, limit=None):
@@ -582,6 +617,9 @@ def instances(tier):
                 'opts': {'generic_divisors': True}})
     out.append({'func': 'h_func', 'params': {'m': 2, 'n': 2, 'fixed_cores': True, 'y_last': 1, 'outside': True},
                 'opts': {'generic_divisors': True}})
+    # a list of different basis callables, one per mode (the symbolic variant, h_func(custom_fh=True), exhausts its
+    # budget with paths queued and is not registered)
+    out.append({'func': 'h_concrete_custom_basis', 'params': {}, 'opts': {'concrete_only': True}})
     # a coarse truncation threshold: degrees are dropped for ordinary data
     out.append({'func': 'h_func', 'params': {'m': 2, 'n': 2, 'fixed_cores': True, 'y_last': 1, 'thr_pow': 0.5},
                 'opts': {'generic_divisors': True}})
